@@ -511,7 +511,8 @@ class Sweep(object):
                 for j in (1, 2, 5):
                     self.check_read(f, 'field', fname, 'positional', '%s_%d' % (fname, j), 'VARIES_%d' % j, 1, sn,
                                     fname, None, Field, pick if k1 else -1)
-                negs = ()
+                # positions start at 1: <field>_0 / VARIES_0 designate nothing (C14_no_such_varies, second clause)
+                negs = (('%s_0' % fname, 'index 0'), ('VARIES_0', 'index 0'), ('VARIES_07', 'index with a leading zero'))
                 # a subcomponent path of a varies field: no structure to decode it against
                 self.negative(make, 'field', fname, ('%s_1_1' % fname).lower(), 'subcomponent path of a varies field',
                               1, sn, fname, None, Field, extra={'field_datatype': 'varies'}, model=not standalone)
